@@ -772,6 +772,9 @@ func (h *Hist) judgeC15(op *Op, pre *ref.Model, preFiles map[string][]byte, res 
 		if stat >= op.N {
 			total := stat
 			for want < len(live) && total >= op.N {
+				if total == op.N && want > 0 {
+					h.cov.Add("c15.size_target_on_exact_boundary", 1) // where '<' and '<=' differ (C15-n)
+				}
 				total -= int64(ref.RecordSize(live[want], h.opts.EffVer()) + h.cfg.ItemSize())
 				want++
 			}
